@@ -126,7 +126,7 @@ fn cases(tier: Tier) -> Vec<Case> {
         }
         spl.push(NumSpec { v: 0.25 + k as f64, names, g, h });
     }
-    for len in [7usize, 8, 9, 15, 16, 17, 31, 32, 33, 34, 64, 65, 130] {
+    for len in [7usize, 8, 9, 15, 16, 17, 31, 32, 33, 34, 64, 65, 130, 255, 256, 257, 300] {
         for start in 0..spl.len() {
             for step in [1usize, 2, 4, 5] {
                 out.push(Case::Sum { xs: (0..len).map(|i| spl[(start + i * step) % spl.len()].clone()).collect() });
@@ -542,7 +542,7 @@ pub fn run(ctx: &Ctx, replay_file: Option<String>) -> ! {
         "every pair of numbers from (value table x 4 derivative contents) for comparisons and remainder in the forms \
          dual-dual / dual-float / float-dual, on Dual, Dual2 and Number; abs, signum / is_positive / is_negative / is_zero (also at +-0), abs_sub on every pair, and the zero/one identities on every \
          number; every sequence of length 0..L over an 8-number pool for sum (items realised both as fresh numbers and as \
-         clones of one object), plus rotating sequences of length 7, 8, 9, 15, 16, 17, 31..34, 64, 65, 130 over a pool widened by numbers carrying all three names in several stored orders; remainders also with the two operands sharing one variable list; remainders of operands around 2^-600 and of subnormal operands; remainders with quotients of 1e13 .. 1e27 (beyond 2^53 and 2^63). Non-trivial: comparisons of unequal \
+         clones of one object), plus rotating sequences of length 7, 8, 9, 15, 16, 17, 31..34, 64, 65, 130, 255, 256, 257, 300 over a pool widened by numbers carrying all three names in several stored orders; remainders also with the two operands sharing one variable list; remainders of operands around 2^-600 and of subnormal operands; remainders with quotients of 1e13 .. 1e27 (beyond 2^53 and 2^63). Non-trivial: comparisons of unequal \
          values with derivatives present, abs of negative numbers with derivatives, remainders with negative \
          non-integer quotient and derivatives, sums of >= 2 terms, identities on numbers that carry variables. \
          Oracle: float comparison; RefDual (by-name value/gradient/Hessian) for abs, rem = a - b*trunc(a/b), left fold \
